@@ -2,7 +2,7 @@
 From Coq.Strings Require Import Byte String.
 From Coq Require Import List NArith ZArith Bool.
 From Model Require Import Bytes Utf8 Frame Parser FrameParser Response Conn.
-From Proofs Require Import FrameParserFacts ConnFacts DeliveryFacts.
+From Proofs Require Import FrameParserFacts ConnFacts DeliveryFacts DeliveryZ.
 Import ListNotations.
 Open Scope N_scope.
 
@@ -135,5 +135,53 @@ Proof.
   split. { apply Forall_forall. intros st Hst. unfold steps0 in Hst. apply in_flat_map in Hst as (d & Hd & Hst).
            destruct Hst as [<-|[<-|[]]]; [exact I|]. destruct d; [|exact I].
            exfalso. revert Hd. vm_compute. intuition discriminate. }
+  split; vm_compute; reflexivity.
+Qed.
+
+(* ---------- a connection that negotiated permessage-deflate (with C06) ---------- *)
+(* The same, on a connection that negotiated permessage-deflate (any parameters): frames with RSV2/RSV3 clear, RSV1 set on
+   the first fragment of a compressed message only and never on a control frame, any fragmentation, Pings and Pongs anywhere,
+   any legal length form, cut into reads in any way.  The reference reading ref_messages_z takes, for every compressed
+   message, the next result of the inflater (the model's oracle tape: Deflate.decompress is not modelled, C06) and for every
+   other message the concatenated payloads; a text message must be well-formed UTF-8 as INFLATED (no incremental validation
+   takes place on such a connection).  Then the client yields exactly those messages, in order, consumes exactly one
+   inflater result per compressed message and none otherwise, stays between two frames, and -- on a working transport --
+   the library writes exactly the owed Pongs (C14). *)
+Theorem C01_delivery_on_a_compressed_connection : forall cf app, benign app -> zpos (c_ping_timeout cf) = None ->
+  forall d fs lfs ds c open tape ms open' tape',
+  Proofs.DeliveryZ.idle_z d c open tape -> data_head open -> Forall Proofs.DeliveryZ.zframe fs -> forms_ok fs lfs ->
+  Proofs.DeliveryZ.ref_messages_z open tape fs = Some (ms, open', tape') -> concat ds = encode_all fs lfs ->
+  exists c', feed_chunks cf app c ds = (c', SOk) /\ Proofs.DeliveryZ.idle_z d c' open' tape' /\ data_head open' /\
+             msg_events (k_tr c') = rev (map ev_of ms) ++ msg_events (k_tr c) /\ k_sock c' = k_sock c /\
+             wfacts cf c c' ms.
+Proof. exact Proofs.DeliveryZ.deliver_frames_z_chunked. Qed.
+Print Assumptions C01_delivery_on_a_compressed_connection.
+
+(* the hypotheses are met: the connection right after a handshake that accepted permessage-deflate; a compressed text message
+   in three fragments with a Ping between them, an uncompressed binary message, a compressed binary message in one frame;
+   the inflater returns "Hello" for the first and 200 zero bytes for the second compressed message *)
+Definition replyz : bytes :=
+  str "HTTP/1.1 101 Switching Protocols"%string ++ CRLF ++ str "Upgrade: websocket"%string ++ CRLF ++
+  str "Connection: Upgrade"%string ++ CRLF ++ str "Sec-WebSocket-Accept: s3pPLMBiTxaQ9kYGzzhZRbK+xOo="%string ++ CRLF ++
+  str "Sec-WebSocket-Extensions: permessage-deflate; server_max_window_bits=10"%string ++ CRLFCRLF.
+Definition tapez : list (option (bytes * bool)) := [Some (str "Hello"%string, false); Some (repeat x00 200, false)].
+Definition cz : conn := fst (feedf cf0 app0 (init [] [] tapez []) replyz).
+Definition frz (fin rsv1 : bool) (op : N) (p : bytes) : frame :=
+  {| f_fin := fin; f_rsv1 := rsv1; f_rsv2 := false; f_rsv3 := false; f_op := op; f_key := None; f_payload := p |}.
+Definition fsz : list frame :=
+  [ frz false true OP_TEXT [xf2; x48]; frz true false OP_PING (str "p"%string); frz false false OP_CONT []; frz true false OP_CONT [xcd; xc9; xc9; x07; x00];
+    frz true false OP_BINARY [x01; x02]; frz true true OP_BINARY [x62; x18; x05]; frz true false OP_PONG [] ].
+Definition lfsz : list lenform := [L64; L16; L7; L16; L16; L7; L64].
+
+Example C01_compressed_nonvacuous :
+  exists d, Proofs.DeliveryZ.idle_z d cz [] tapez /\ Forall Proofs.DeliveryZ.zframe fsz /\ forms_ok fsz lfsz /\
+  Proofs.DeliveryZ.ref_messages_z [] tapez fsz =
+    Some ([SPing (str "p"%string); SText (str "Hello"%string); SBinary [x01; x02]; SBinary (repeat x00 200); SPong []], [], []) /\
+  msg_events (k_tr (fst (feedf cf0 app0 cz (encode_all fsz lfsz)))) =
+    rev [EvPing (str "p"%string); EvText (str "Hello"%string); EvBinary [x01; x02]; EvBinary (repeat x00 200); EvPong []] ++ msg_events (k_tr cz).
+Proof.
+  eexists. split. { unfold Proofs.DeliveryZ.idle_z. vm_compute. repeat split; reflexivity. }
+  split. { repeat constructor; vm_compute; reflexivity. }
+  split. { vm_compute. tauto. }
   split; vm_compute; reflexivity.
 Qed.
